@@ -82,6 +82,7 @@ class Check:
         groups = {str(g): n for g, n in rng.sample([(0, "root"), (5, "tty"), (100, "users"), (1000, "staff")], 2)}
         plan["users"], plan["groups"], plan["ident"] = users, groups, True
         st = plan.setdefault("stat", {})
+        nmounts = 0
         for n in world["nodes"]:
             kv = st.setdefault(n["path"], {})
             if rng.random() < 0.6:
@@ -101,6 +102,12 @@ class Check:
                 kv["btime"] = rng.choice([1, 86400, 1583020799, 1700000001, 4102444800, rng.randrange(0, 2 ** 32)]) * 10 ** 9
             if rng.random() < 0.5:
                 kv["mtime"] = rng.choice([0, 1, 86399, 86400, 951782400, 1583020799, 1700000000, 2147483647, 2147483648, 4102444800, rng.randrange(0, 2 ** 32)]) * 10 ** 9 + rng.choice([0, 999999999])
+            if n["type"] == "dir" and rng.random() < 0.3:
+                # a mount point: readdir reports the covered directory's number, lstat the mounted root's (other device)
+                kv["ino"] = rng.choice([1, 2, 128])
+                nmounts += 1
+                kv["dev"] = 2049 + nmounts  # every mount is its own device: (device, inode) stays unique
+                kv["dino"] = 900000 + nmounts
             if not kv:
                 del st[n["path"]]
         return {"sub": "meta", "world": world, "top": top, "plan": plan, "tz": rng.choice(["UTC", "Europe/Berlin", "America/New_York", "Asia/Kolkata"]),
